@@ -239,8 +239,56 @@ func RunC10(tier string) int {
 			rep.Sample(desc + " => " + canon)
 		}
 	})
+	// as an unprivileged user: packages whose content a non-root process cannot delete again (a read-only
+	// directory with a file in it), alone and as content twins (the second copy has to be discarded)
+	{
+		upool := core.NewPool(65534)
+		ro := []TNode{{Path: "ro", Kind: "dir", Mode: 0555}, {Path: "ro/data", Kind: "file", Body: "d"}}
+		type uj struct {
+			name string
+			w    World
+			adds []AddCall
+		}
+		ujs := []uj{
+			{"one package with a read-only directory", World{Pkgs: []WPkg{{Addr: P1, Files: ro, NilMeta: true}}}, []AddCall{{Kind: "remote", Addr: P1, Finder: "F1"}}},
+			{"two addresses with identical content holding a read-only directory", World{Pkgs: []WPkg{{Addr: P1, Files: ro, NilMeta: true}, {Addr: P4, Content: P1, Files: ro, NilMeta: true}}},
+				[]AddCall{{Kind: "remote", Addr: P1, Finder: "F1"}, {Kind: "remote", Addr: P4, Finder: "F1"}}},
+			{"the same, second one discovered as a dependency", World{Pkgs: []WPkg{{Addr: P1, Files: ro, NilMeta: true}, {Addr: P4, Content: P1, Files: ro, NilMeta: true}},
+				Edges: []WEdge{{Content: P1, Loc: "", Finder: "F1", Kind: "remote", Target: P4, TFinder: "F1"}}}, []AddCall{{Kind: "remote", Addr: P1, Finder: "F1"}}},
+		}
+		uargs := make([]BuildArg, len(ujs))
+		upool.Map("build", len(ujs), func(i int) any {
+			uargs[i] = BuildArg{World: ujs[i].w, Adds: ujs[i].adds, Probes: []string{P1}, Trace: true}
+			return uargs[i]
+		}, func(i int, r core.Result) {
+			rep.Evaluations++
+			desc := "uid=65534 " + ujs[i].name
+			if r.Hung || r.Crashed {
+				rep.Violation("sourcebundle.Builder/hang-or-crash", desc+" "+firstLines(r.Stderr, 3), "build", uargs[i])
+				return
+			}
+			var out BuildOut
+			core.MustOut(r, &out)
+			if out.SetupErr != "" {
+				core.Fatalf("C10 uid part: %s", out.SetupErr)
+			}
+			if out.Bundle == nil {
+				rep.Outcome("build-refused(uid 65534)")
+				return
+			}
+			rep.Outcome("built(uid 65534)")
+			rep.Nontrivial("uid65534:" + ujs[i].name)
+			if len(out.TmpLeft) > 0 {
+				rep.Violation("sourcebundle.Builder/temporary-directory-left", fmt.Sprintf("%s :: the build succeeded and left %v in the bundle directory", desc, out.TmpLeft), "build", uargs[i])
+			}
+			for _, v := range traceBracketing(out.Trace) {
+				rep.Violation("sourcebundle.Builder/"+v[0], desc+" :: "+v[1], "build", uargs[i])
+			}
+		})
+		jobs = append(jobs, make([]job, len(ujs))...)
+	}
 	rep.States = len(jobs)
 	rep.Transitions = rep.Evaluations
-	rep.Rule = "fetched tree = base{a,d/f,z/g} + every set of <=2 extra nodes over a 26-item menu (links: in-package file/dir, to the manifest, to the bundle root, out of the bundle, absolute into the temporary work dir, absolute outside, chains, through an ignored directory with the link sorting before/after it, dangling, self; fifos; inside an ignored directory) × 5 rule files × {root package, dependency}; real Builder; oracle: walk of every package directory with physical link resolution, ignore verdicts by ref/glob, must-fail for content that leaves the package/dangles/is special and survives the rules, no .tmp-* left, arena outside the target unchanged. Distinct = resulting package tree."
+	rep.Rule = "fetched tree = base{a,d/f,z/g} + every set of <=2 extra nodes over a 26-item menu (links: in-package file/dir, to the manifest, to the bundle root, out of the bundle, absolute into the temporary work dir, absolute outside, chains, through an ignored directory with the link sorting before/after it, dangling, self; fifos; inside an ignored directory) × 5 rule files × {root package, dependency}; real Builder; oracle: walk of every package directory with physical link resolution, ignore verdicts by ref/glob, must-fail for content that leaves the package/dangles/is special and survives the rules, no .tmp-* left, arena outside the target unchanged; plus three builds as uid 65534 with content that user cannot delete again (alone and as content twins). Distinct = resulting package tree."
 	return rep.Finish()
 }
